@@ -357,7 +357,7 @@ def run_phybo_modes(chk):
                        'broken': 'correspondence:PhyBo._get_GLS membership'}, found_input=False)
 
 
-def run_phybo_wordlist(chk):
+def run_phybo_wordlist(chk, want='C07'):
     """the wordlist-driven entry point: a real PhyBo object (word list file + reference tree), get_GLS in its three modes.  Every stored
     scenario must replay to the pattern stored for ITS cognate set, and the wrapper must add nothing to the stand-alone routines (same
     scenario as the routine returns when called on that pattern, number of origins = number of gain events)"""
@@ -408,7 +408,7 @@ def run_phybo_wordlist(chk):
                     for i, r in enumerate(rows, 1):
                         f.write('%d\t%s\t%s\t%s\t%d\n' % (i, r[1], r[0], r[2], r[3]))
                 for md in (0, -1):
-                    for mode in ('weighted', 'restriction', 'topdown'):
+                    for mode in (('weighted', 'restriction', 'topdown') if want == 'C07' else ('weighted', 'weighted')):
                         try:
                             phy = PhyBo(infile, tree=gl.newick(t) + ';', output_dir=tmp)
                         except Exception as ex:  # noqa
@@ -423,6 +423,8 @@ def run_phybo_wordlist(chk):
                             continue
                         w, r = rng.choice(WEIGHTS), rng.choice([2, 3, 4])
                         gpl, push = rng.choice([1, 2]), rng.random() < 0.5
+                        if want == 'C08':
+                            gpl = k + rng.choice([0, 1, 90])          # the limit on gains per lineage does not bind: the minimum is over all scenarios
                         kw = dict(ratio=w, gpl=gpl, push_gains=push) if mode == 'weighted' else dict(restriction=r, gpl=gpl, push_gains=push)
                         try:
                             phy.get_GLS(mode=mode, force=True, missing_data=md, **kw)
@@ -452,6 +454,13 @@ def run_phybo_wordlist(chk):
                                     e = gl.oracle_c07(phy.tree, ptaxa, own, sc, md)
                                     if e:
                                         e = 'against the states observed in the rows %r (the object codes the set as %r): %s' % (dict(zip(ptaxa, own)), pats[cog], e)
+                                if not e and want == 'C08':
+                                    # the weight of the stored scenario against the minimum for the states observed in the rows
+                                    got_w = gl.weight(sc, w)
+                                    extra = [n_.Name for n_ in phy.tree.tips() if n_.Name not in ptaxa]      # a doculect of the tree without any row
+                                    best = gl.opt_weight(phy.tree, ptaxa + extra, own + [-1] * len(extra), w, md)
+                                    if got_w != best:
+                                        e = 'weight %r of the stored scenario is not the minimum %r for the states observed in the rows %r (weights %r)' % (got_w, best, dict(zip(ptaxa, own)), w)
                                 if e:
                                     key = 'topdown-md-1-conflicting-events' if (mode == 'topdown' and md == -1 and -1 in pats[cog] and 'a gain and a loss' in e) else None
                                     fails.append((mode, t, rows, md, 'cognate set %s pattern %r scenario %r: %s' % (cog, dict(zip(ptaxa, pats[cog])), sc, e), key, (kw, cog)))
@@ -473,7 +482,9 @@ def run_phybo_wordlist(chk):
                                         diffs.append((mode, cog, pats[cog], sc, 'the routine called on this pattern returns %r' % (alone,)))
     finally:
         logging.disable(logging.NOTSET)
-    chk.obligation('oracle:every scenario stored by PhyBo.get_GLS (word list + tree, three modes, missing_data 0 and -1) replays to the pattern of its cognate set',
+    chk.obligation(('oracle:every scenario stored by PhyBo.get_GLS(mode=weighted) (word list + tree, missing_data 0 and -1, non-binding gain limit) replays to the states observed '
+                    'in the rows and has the minimum weight for them') if want == 'C08' else
+                   'oracle:every scenario stored by PhyBo.get_GLS (word list + tree, three modes, missing_data 0 and -1) replays to the pattern of its cognate set',
                    'correspondence', not [f for f in fails if f[5] is None or not any(k['key'] == f[5] for k in chk.known)],
                    'cognate sets=%d failures=%d' % (ncogs, len(fails)))
     chk.obligation('correspondence:PhyBo.get_GLS stores what the routine returns for the pattern of each cognate set (number of origins = gains)',
